@@ -89,7 +89,7 @@ def judge_acl(case) -> Verdict:
         body = "\n".join(text.split("\n")[1:])
         if not body.strip():
             raise Invalid()
-        obj = AceGroup(body, platform=platform)
+        obj = AceGroup(body, platform=platform, version=acl_case.get("version", "0"))
     flat = list(_flat(obj.items))
     n = len(flat)
     if n == 0 or n != len(acl_case["items"]):
@@ -103,13 +103,25 @@ def judge_acl(case) -> Verdict:
     v.nt(n >= 2 and (grouped or boundary))
     v.label("acl-grouped" if grouped else ("acegroup" if target != "acl" else "acl-flat"),
             "boundary-args" if boundary else "plain-args")
-    want_err = expected_error(start, step, n)
     detail = {"target": target, "start": start, "step": step, "n": n, "text": text if len(text) < 900 else text[:900]}
+    first = case.get("first")
+    if first:
+        # an earlier call on the SAME object (possibly refused) must not influence this one
+        if not (isinstance(first, list) and len(first) == 2 and all(isinstance(x, int) and not isinstance(x, bool) for x in first)):
+            raise Invalid()
+        try:
+            obj.resequence(first[0], first[1])
+            v.label("earlier-call-returned")
+        except ValueError:
+            v.label("earlier-call-refused")
+        detail["earlier_call"] = first
+        ids = [id(o) for o in _flat(obj.items)]
+    want_err = expected_error(start, step, n)
     try:
         ret = obj.resequence(start, step)
     except ValueError:
         if not want_err:
-            v.fail("reseq:unexpected-error", detail)
+            v.fail("reseq:unexpected-error" + (":after-earlier-call" if first else ""), detail)
         v.label("error-expected" if want_err else "error-unexpected")
         return v
     if want_err:
@@ -168,7 +180,10 @@ def acl_case_st(draw, tier):
     acl = draw(G.acl_st(min_items=1, max_items=10, kmax=2, groups=True, members=False, seqs=True))
     n = len(acl["items"])
     start, step = draw(args_st(n))
+    acl["version"] = draw(st.sampled_from(["0", "0", "12.4", "15.2(02)SY", "16.09.06", "9.3(8)"]))
     case = {"acl": acl, "start": start, "step": step, "target": draw(st.sampled_from(["acl", "acl", "acl", "acegroup"]))}
+    if draw(st.sampled_from([True, False, False])):
+        case["first"] = list(draw(args_st(n)))
     if not acl["group_by"] and draw(st.booleans()):
         case["spans"] = [[draw(st.integers(0, n)), draw(st.integers(1, 4))] for _ in range(draw(st.integers(1, 3)))]
     return case
